@@ -395,9 +395,30 @@ def semseg_seeded(p):
             def getitem_semseg(self, idx, ctx=None):
                 return coded_pair(h, w)[1]
 
-        for pipe in ("full", "crop_ratio", "resize"):  # KDSemsegRandomResizeOld is not a registered pair transform of the wrapper
+        from kappadata.transforms.base.kd_stochastic_transform import KDStochasticTransform
+
+        class Draw(KDStochasticTransform):
+            """an image-only stochastic transform that consumes random numbers but leaves the (position-coded) pixels alone"""
+
+            def __call__(self, x, ctx=None):
+                self.rng.random()
+                self.rng.integers(5)
+                return x
+
+        def with_image_only(ts, where):
+            if where == "first":
+                return [Draw()] + ts
+            if where == "between":
+                out = []
+                for t in ts:
+                    out += [t, Draw()]
+                return out[:-1] if len(out) > 1 else [Draw()] + out
+            return ts
+
+        # KDSemsegRandomResizeOld is not a registered pair transform of the wrapper
+        for pipe, where in [(pp, None) for pp in ("full", "crop_ratio", "resize")] + [("full", "first"), ("full", "between"), ("crop", "first")]:
             for seed in range(6):
-                wrap = SemsegTransformWrapper(DS(), build_semseg(pipe, 4), seed=seed)
+                wrap = SemsegTransformWrapper(DS(), with_image_only(build_semseg(pipe, 4), where), seed=seed)
                 for i in range(6):
                     p.evaluations += 1
                     try:
@@ -409,8 +430,9 @@ def semseg_seeded(p):
                         continue
                     err = check_pair(x, seg, w) or check_pair(x2, seg2, w)
                     if err:
-                        p.violation("C14:semseg_wrapper:image_and_mask_geometry_differ|seeded", dict(kind="semseg_seeded", h=h, w=w, pipe=pipe, seed=seed, i=i),
-                                    f"seeded wrapper {pipe} {h}x{w} seed {seed} sample {i}: {err}")
+                        p.violation("C14:semseg_wrapper:image_and_mask_geometry_differ|seeded" + ("|image_only_transform_" + where if where else ""),
+                                    dict(kind="semseg_seeded", h=h, w=w, pipe=pipe, seed=seed, i=i),
+                                    f"seeded wrapper {pipe} (image-only stochastic transform: {where}) {h}x{w} seed {seed} sample {i}: {err}")
                     else:
                         p.observe(("semseg_seeded", h, w, pipe, seed, i, tuple(seg.shape)))
 
